@@ -33,6 +33,8 @@ IDENTITY = {'Deref::deref', 'DerefMut::deref_mut', 'AsRef::as_ref', 'Clone::clon
             'Rc::new', 'Rc::clone', 'AsMut::as_mut', 'BorrowMut::borrow_mut', 'Box::new', 'Into::into', 'From::from',
             'ToOwned::to_owned'}
 ITER_MAKERS = {'IntoIterator::into_iter', 'slice::iter', 'Vec::iter', 'slice::into_iter', 'Iterator::by_ref'}
+# operand readers that the machine model knows as one step (a length-prefixed list): decided on their own, never spliced into a caller
+OPAQUE_LOCAL = {'read_u8_vec'}
 PURE_LOCAL = {'Pattern::e_fresh', 'Pattern::s_fresh', 'Pattern::positive', 'Pattern::negative',
               'Pattern::well_formed', 'Pattern::is_redundant_subst',
               'apply_esubst', 'apply_ssubst', 'instantiate_internal', 'Instruction::from'}
@@ -685,7 +687,7 @@ class Evaluator:
             callee = self._local(t.callee, name)
             # a call back into a function that is being evaluated further up (mutual recursion through a helper) is a recursive call:
             # it stays a call, like the direct recursion of the function itself
-            if callee is not None and name not in PURE_LOCAL and depth < self.inline_depth \
+            if callee is not None and name not in PURE_LOCAL and name not in OPAQUE_LOCAL and depth < self.inline_depth \
                     and callee.short != fn.short and callee.short not in self._stack:
                 s = self.summary(callee, depth + 1)
                 if s is not None:
@@ -739,6 +741,10 @@ class Evaluator:
             return self.fns[callee]
         if name in self.fns:
             return self.fns[name]
+        # an inherent method is listed under its bare name in the MIR dump (`impl T { fn m }` -> `m`) but called as `T::m`
+        last = name.split('::')[-1]
+        if '::' in name and last in self.fns and sum(1 for k in self.fns if k.split('::')[-1] == last) == 1:
+            return self.fns[last]
         return None
 
     def summary(self, callee: mir.Fn, depth: int):
